@@ -30,6 +30,7 @@ class C17(object):
     tolerances = {'permutation equivariance': '1e-6 for closed-form measures, 5e-4 for measures with an optimiser inside (CCS, RAV, GH)', 'identities': 'atol 1e-6 (dit uses isclose(atol=1e-5, rtol=1e-5) for its flags; values within 1e-6..1e-4 of a flag threshold are not judged)',
                   'closed forms': 'atol 1e-9'}
     exhaustive = {}
+    case_timeout = 25     # seconds; some measures run numerical optimisers
     trusted_extra = ["the redundancy lattice comes from the /verif/pyshim lattices shim (free_distributive_lattice); its node set and order are compared with the Lean model on every case",
                      "PID_dep / PID_RA / PID_Prec need lattices.dependency_lattice-based optimisation and are not covered"]
 
@@ -62,9 +63,32 @@ class C17(object):
             classes = list(FAST3)
             if ns == 2:
                 classes += TWO_ONLY if (tier == 'thorough' or rng.random() < 0.5) else ['PID_RAV', 'PID_RR', 'PID_CT', 'PID_IG']
-            yield {'outs': outs, 'pmf': [str(p) for p in pmf], 'ns': ns, 'cls': rng.choice(classes),
-                   'addr': rng.choice(['default', 'explicit', 'names', 'names-default']),
-                   'dense': rng.random() < 0.3, 'style': style}
+            c = {'outs': outs, 'pmf': [str(p) for p in pmf], 'ns': ns, 'cls': rng.choice(classes),
+                 'addr': rng.choice(['default', 'explicit', 'names', 'names-default']),
+                 'dense': rng.random() < 0.3, 'style': style, 'tw': 1, 'pre': None}
+            r_ = rng.random()
+            if r_ < 0.15 and ns == 2 and style != 'gate':
+                # composite target: two sources and a two-variable target, sources defaulted
+                extra = [rng.randrange(2) for _ in c['outs']]
+                c['outs'] = [o + [e] for o, e in zip(c['outs'], extra)]
+                c['tw'] = 2
+                c['addr'] = rng.choice(['default-sources', 'names-default-sources'])
+                c['cls'] = rng.choice(FAST3)
+            elif r_ < 0.35:
+                # force three sources: T = f(X0, X1, X2) with small alphabets
+                if ns != 3 or style == 'gate':
+                    import itertools as _it
+                    full = [list(o) for o in _it.product(range(2), repeat=3)]
+                    outs3 = [o + [sum(o) if rng.random() < 0.5 else (o[0] ^ o[1]) + o[2]] for o in full]
+                    pv, _ = gen.rand_prob_vector(rng, len(outs3), rng.choice(['small', 'uneven']))
+                    if rng.random() < 0.5 or any(p == 0 for p in pv):
+                        pv = [Fraction(1, len(outs3))] * len(outs3)
+                    c.update({'outs': outs3, 'pmf': [str(p) for p in pv], 'ns': 3, 'style': 'sum-gate'})
+                # an incomplete decomposition with a pre-assessed atom (possibly contradicting the measure)
+                c['cls'] = rng.choice(['PID_CT', 'PID_Proj'])
+                c['addr'] = 'default'
+                c['pre'] = [rng.choice([[[0]], [[1]], [[0], [1]]]), rng.choice([0.0, 0.05, 0.3])]
+            yield c
 
     def shrink(self, case):
         if case['cls'] != 'PID_MMI':
@@ -78,12 +102,12 @@ class C17(object):
         ns = case['ns']
         outs = case['outs']
         if perm is not None:
-            outs = [[o[perm[i]] for i in range(ns)] + [o[ns]] for o in outs]
+            outs = [[o[perm[i]] for i in range(ns)] + o[ns:] for o in outs]
         d = dit.Distribution([tuple(o) for o in outs], [float(Fraction(p)) for p in case['pmf']])
         if case['dense']:
             d.make_dense()
         if case['addr'].startswith('names'):
-            d.set_rv_names('ABCD'[:ns + 1])
+            d.set_rv_names('ABCD'[:ns + case.get('tw', 1)])
         return d
 
     def make_pid(self, case, d):
@@ -91,8 +115,17 @@ class C17(object):
         import dit.pid as pid
         cls = getattr(pid, case['cls'])
         ns = case['ns']
+        tw = case.get('tw', 1)
+        kw = {}
+        if case.get('pre'):
+            node = tuple(tuple(s) for s in case['pre'][0])
+            kw['pis'] = {node: case['pre'][1]}
         if case['addr'] in ('default', 'names-default'):
-            return cls(d)
+            return cls(d, **kw)
+        if case['addr'] == 'default-sources':
+            return cls(d, target=list(range(ns, ns + tw)))
+        if case['addr'] == 'names-default-sources':
+            return cls(d, target=list('ABCD'[ns:ns + tw]))
         if case['addr'] == 'names':
             return cls(d, [[c] for c in 'ABCD'[:ns]], ['ABCD'[ns]])
         return cls(d, [[i] for i in range(ns)], [ns])
@@ -116,6 +149,9 @@ class C17(object):
             raise
         except Exception as e:  # noqa
             import traceback
+            if case.get('pre') and 'Optimization failed' in str(e):
+                r.features.append('optimiser-failed-on-preassessed')     # a contradictory pre-assessed atom can make the inner problem infeasible
+                return r
             r.oracle_fail = '%s raised %s: %s' % (case['cls'], type(e).__name__, str(e)[:160])
             r.detail = {'traceback': traceback.format_exc()[-700:]}
         return r
@@ -149,33 +185,39 @@ class C17(object):
         flags = {'consistent': bool(p.consistent), 'complete': bool(p.complete), 'nonnegative': bool(p.nonnegative)}
         r.detail = {'reds': {str(k): v for k, v in reds.items()}, 'pis': {str(k): v for k, v in pis.items()}, 'flags': flags}
         sources = [[i] for i in range(ns)]
-        target = [ns]
+        target = list(range(ns, ns + case.get('tw', 1)))
         tot = float(coinformation(self.build(dict(case, addr='explicit')), [list(range(ns)), target]))
         # ---- the flags, read from the numbers
         nan = any(math.isnan(v) for v in pis.values())
         if flags['complete'] != (not nan):
             r.oracle_fail = 'complete = %s but %s' % (flags['complete'], 'some atom is undetermined' if nan else 'every atom is determined')
             return
+        # the flag, read from the numbers: over the nodes whose redundancy and atoms at/below are all determined
+        margin = []
+        okm = True
+        for x, bl in zip(mnodes, below):
+            vals = [pis[x]] + [pis[keyof(b)] for b in bl]
+            if math.isnan(reds[x]) or any(math.isnan(v) for v in vals):
+                continue
+            parts = sum(vals)
+            dev = abs(reds[x] - parts)
+            margin.append(dev)
+            okm = okm and dev <= 1e-5 + 1e-5 * abs(parts)
+        oks = True
+        dit0 = self.build(dict(case, addr='explicit'))
+        for i in range(ns):
+            if math.isnan(reds[((i,),)]):
+                continue
+            mi = float(coinformation(dit0, [[i], target]))
+            dev = abs(reds[((i,),)] - mi)
+            margin.append(dev)
+            oks = oks and dev <= 1e-5 + 1e-5 * abs(mi)
+        judged = not any(1e-6 < m < 1e-4 for m in margin)
+        if judged and flags['consistent'] != (okm and oks):
+            r.oracle_fail = ('consistent = %s, but Moebius sums hold on the determined nodes = %s and single-source '
+                             'redundancies equal the mutual informations = %s' % (flags['consistent'], okm, oks))
+            return
         if not nan and not any(math.isnan(v) for v in reds.values()):
-            margin = []
-            okm = True
-            for x, bl in zip(mnodes, below):
-                parts = pis[x] + sum(pis[keyof(b)] for b in bl)
-                dev = abs(reds[x] - parts)
-                margin.append(dev)
-                okm = okm and dev <= 1e-5 + 1e-5 * abs(parts)
-            oks = True
-            dit0 = self.build(dict(case, addr='explicit'))
-            for i in range(ns):
-                mi = float(coinformation(dit0, [[i], target]))
-                dev = abs(reds[((i,),)] - mi)
-                margin.append(dev)
-                oks = oks and dev <= 1e-5 + 1e-5 * abs(mi)
-            judged = not any(1e-6 < m < 1e-4 for m in margin)
-            if judged and flags['consistent'] != (okm and oks):
-                r.oracle_fail = ('consistent = %s, but Moebius sums hold = %s and single-source redundancies equal the '
-                                 'mutual informations = %s' % (flags['consistent'], okm, oks))
-                return
             if judged and flags['consistent'] and flags['complete']:
                 s = sum(pis.values())
                 if abs(s - tot) > 1e-4 or abs(reds[keyof(top)] - tot) > 1e-4:
@@ -187,7 +229,7 @@ class C17(object):
                 return
             # model: Moebius inversion of these reds in exact arithmetic
             mp = drv.call('moebius', [ns, [q(Fraction(reds[x])) for x in mnodes]])
-            if case['cls'] in ALWAYS:
+            if case['cls'] in ALWAYS and not case.get('pre'):
                 for x, v in zip(mnodes, mp):
                     if abs(float(unq(v)) - pis[x]) > 1e-9:
                         r.mismatch = 'pi%s: impl %r, Moebius inversion of the reds gives %r' % (x, pis[x], float(unq(v)))
@@ -196,7 +238,7 @@ class C17(object):
                     r.oracle_fail = 'a measure defined on every antichain violates the lattice identities (%s)' % case['cls']
                     return
         # ---- closed forms
-        if case['cls'] in ('PID_WB', 'PID_MMI'):
+        if case['cls'] in ('PID_WB', 'PID_MMI') and case.get('tw', 1) == 1:
             rows = [(list(o), float(Fraction(pp))) for o, pp in zip(case['outs'], case['pmf'])]
             ftab = [[o, f2bits(v)] for o, v in rows]
             name = 'imin' if case['cls'] == 'PID_WB' else 'immi'
@@ -214,7 +256,7 @@ class C17(object):
                 r.oracle_fail = '%s has a negative atom: %s' % (name, min(pis.values()))
                 return
         # ---- permutation equivariance
-        if case['cls'] in ALWAYS:
+        if case['cls'] in ALWAYS and not case.get('pre'):
             for perm in itertools.permutations(range(ns)):
                 if list(perm) == list(range(ns)):
                     continue
